@@ -8,6 +8,16 @@ import anyio
 
 
 def make_object(interp, name, kind, o):
+    objs = interp.w.objs
+    if kind == "mstream":
+        size = o.get("size", 0)
+        snd, rcv = anyio.create_memory_object_stream(math.inf if size == "inf" else size)
+        objs["s0"] = snd
+        objs["r0"] = rcv
+        for c in o.get("clones", ()):  # e.g. ["s1", "r1"]
+            objs[c] = (snd if c.startswith("s") else rcv).clone()
+        objs[name] = snd  # statistics handle
+        return
     raise ValueError(f"unknown object kind {kind}")
 
 
@@ -24,4 +34,22 @@ async def run_op(interp, t, op, opid):
         return interp._sync(t, opid, "notify", [op[1], op[2]], lambda: objs[op[1]].notify(op[2]))
     if k == "notify_all":
         return interp._sync(t, opid, "notify_all", [op[1]], objs[op[1]].notify_all)
+    if k == "send":
+        return await interp._blocking(t, opid, "send", [op[1], op[2]], objs[op[1]].send(op[2]))
+    if k == "send_nowait":
+        return interp._sync(t, opid, "send_nowait", [op[1], op[2]],
+                            lambda: objs[op[1]].send_nowait(op[2]))
+    if k == "recv":
+        return await interp._blocking(t, opid, "recv", [op[1]], objs[op[1]].receive())
+    if k == "recv_nowait":
+        return interp._sync(t, opid, "recv_nowait", [op[1]], objs[op[1]].receive_nowait)
+    if k == "clone":
+        def f():
+            objs[op[2]] = objs[op[1]].clone()
+        return interp._sync(t, opid, "clone", [op[1], op[2]], f)
+    if k == "close":
+        def f():
+            objs[op[1]].close()
+            objs["closed:" + op[1]] = True
+        return interp._sync(t, opid, "close", [op[1]], f)
     raise ValueError(f"unknown op {op}")
